@@ -34,6 +34,9 @@
      started_marked_first : whether onUpstreamHeaders sets downstreamResponseStarted BEFORE it hands the headers to the sender
                              (appendHeaders may end the stream, clean it and give the downStream object back to the buffer pool;
                              an assignment after that call is a write into the pooled object)
+     try_captures_id / global_captures_id : whether the per-try / global timer function compares the object's current proxy ID with
+                             the ID captured when the timer was ARMED (a variable of the arming function, outside the closure);
+                             otherwise it loads the ID inside the closure and compares it with itself
      res_counts_unlimited : whether resource.Increase / Decrease (cluster resource manager) count also while no limit is configured
                              (max == 0); CanCreate is true then in either case *)
 From Coq Require Import List ZArith Bool Arith Lia.
@@ -61,7 +64,7 @@ Record srcp := { loop_bound : nat; min_budget : nat; reset_guarded : bool; direc
   put_resets_cursor : bool; retry_checks_direct : bool; retry_refinalizes : bool; timers_reset_stream : bool; hijack_clears_body : bool;
   retry_clears_reuse : bool; setupretry_clears_reuse : bool; global_lost_cas_stops : bool; append_error_continues : bool;
   reset_excludes_global : bool; reset_reads_status : bool; res_counts_unlimited : bool;
-  send_once_per_upreq : bool; started_marked_first : bool;
+  send_once_per_upreq : bool; started_marked_first : bool; try_captures_id : bool; global_captures_id : bool;
   reason_code : reason -> Z }.
 
 Record cfg := {
@@ -91,7 +94,7 @@ Record cfg := {
 #[export] Instance eta_srcp : Settable _ := settable! Build_srcp
   <loop_bound; min_budget; reset_guarded; direct_clears_again; direct_cancels_retry; direct_resets_upstream; put_resets_cursor; retry_checks_direct; retry_refinalizes;
    timers_reset_stream; hijack_clears_body; retry_clears_reuse;
-   setupretry_clears_reuse; global_lost_cas_stops; append_error_continues; reset_excludes_global; reset_reads_status; res_counts_unlimited; send_once_per_upreq; started_marked_first; reason_code>.
+   setupretry_clears_reuse; global_lost_cas_stops; append_error_continues; reset_excludes_global; reset_reads_status; res_counts_unlimited; send_once_per_upreq; started_marked_first; try_captures_id; global_captures_id; reason_code>.
 
 Inductive rkind := KUp | KHijack | KDirect.
 Record resp := { r_kind : rkind; r_code : Z; r_data : bool; r_trailers : bool;
@@ -104,7 +107,12 @@ Inductive ev :=
   | EvGlobal
   | EvDownReset (why : reason)
   | EvTerminate (code : Z)
-  | EvWake.                          (* the 10 ms sleep of doRetry is over *)
+  | EvWake                           (* the 10 ms sleep of doRetry is over *)
+  (* a timer function armed by some owner of this pooled downStream object runs now; [same] = the proxy ID it captured when it was
+     armed is the object's current ID.  For a timer of an EARLIER owner (Timer.Stop came after the runtime had started it, the
+     object was given back and taken by this request meanwhile) it is false: newActiveStream gives every owner a fresh ID *)
+  | EvStaleTry (same : bool)
+  | EvStaleGlobal (same : bool).
 Inductive step := Worker | Env (e : ev).
 
 Inductive out :=
@@ -626,6 +634,26 @@ Definition wstep (s0 : st) : st * list out :=
 
 Definition worker (s : st) : st * list out := wstep s.
 
+(* ----- timer functions of an earlier owner of the object: reuseBuffer = 0, cleaned?, ID check, CAS, time-out handling ----- *)
+Definition stale_try (same : bool) (s : st) : st * list out :=
+  let s1 := s <| reuse := false |> in
+  if cleaned s1 then (s1, [])
+  else if (if try_captures_id src then negb same else false) then (s1, [])     (* the ID check; without the capture: ID != ID *)
+  else if received s1 then (s1, [])
+  else
+    let s2 := s1 <| received := true |> in
+    if resp_started s2 then (s2, [])
+    else ((if timers_reset_stream src then upreq_reset_stream else ret) ;; on_up_reset RsPerTryTimeout) s2.
+Definition stale_global (same : bool) (s : st) : st * list out :=
+  let s1 := s <| reuse := false |> in
+  if cleaned s1 then (s1, [])
+  else if (if global_captures_id src then negb same else false) then (s1, [])
+  else if received s1 then (s1, [])
+  else
+    let s2 := s1 <| received := true |> in
+    if has_upreq s2 then ((if timers_reset_stream src then upreq_reset_stream else ret) ;; on_up_reset RsGlobalTimeout) s2
+    else (s2, []).
+
 (* ----- asynchronous handlers: one atomic guarded step each ----- *)
 Definition env_step (e : ev) (s : st) : st * list out :=
   match e with
@@ -678,6 +706,8 @@ Definition env_step (e : ev) (s : st) : st * list out :=
             hijack code false ;; upd (fun s => s <| notify := true |>)) s
     end
   | EvWake => if sleeping s then (s <| sleeping := false |> <| woken := true |>, []) else (s, [])
+  | EvStaleTry g => stale_try g s
+  | EvStaleGlobal g => stale_global g s
   end.
 
 Definition do_step (s : st) (x : step) : st * list out :=
